@@ -262,7 +262,7 @@ def fam_redim(tier, rng):
     kinds = [("I", 0, False), ("$", 0, False), ("$", 3, False), ("D", 0, True)]
     for t, fixn, ext in kinds:
         for second in ("typed", "bare"):
-            for where in ("main", "sub-shared", "main-shared"):
+            for where in ("main", "sub-shared", "main-shared", "fun-shared"):
                 b = B()
 
                 def dm(lo, hi, **kw):
@@ -291,6 +291,16 @@ def fam_redim(tier, rng):
                     again["shared"] = True
                     main = [first, b.let(el(1), val), show(), again, b.let(el(2), val), b.call("G", []), show()]
                     subs = [sub("G", [], [b.print(lit("$", "g"), el(2), bound("u", "AR", t, num(1))), b.let(el(4), val)])]
+                elif where == "fun-shared":
+                    # the same inside a FUNCTION
+                    again["noshared"] = True
+                    again["shared"] = True
+                    fc = fcall("GF", "I", [], 0)
+                    st_ = b.let(var("R", "I"), fc)
+                    fc["sid"] = st_["id"]
+                    main = [first, b.let(el(1), val), show(), st_, show(), b.let(el(2), val), show()]
+                    subs = [fun("GF", "I", [], [again, b.let(el(4), val), b.print(lit("$", "g"), bound("u", "AR", t, num(1))),
+                                                b.let(var("GF", "I"), bound("u", "AR", t, num(1)))])]
                 else:
                     again["noshared"] = True
                     again["shared"] = True          # the spec: it IS the shared array; the text does not say SHARED
@@ -340,6 +350,48 @@ def fam_arity(tier, rng):
 
 
 FAMILIES.append(fam_arity)
+
+
+def fam_nested_subscript(tier, rng):
+    """a subscript that is itself an element of another array (also of the same array, also two levels deep, also in a
+    two-dimensional array): exactly the element the inner value names is written / read"""
+    out = []
+    for et in ("I", "$", "D"):
+        for form in ("other", "same", "deep", "twodim", "both"):
+            for rw in ("write", "read"):
+                b = B()
+                main = [b.dim("AR", et, [dimspec(0, 4)]), b.dim("IX", "I", [dimspec(0, 3)]), b.dim("G", et, [dimspec(0, 2), dimspec(0, 3)])]
+                main += [b.let(idx("IX", "I", [lit("I", k)]), lit("I", v)) for k, v in ((0, 2), (1, 3), (2, 1), (3, 0))]
+                for k in range(5):
+                    main.append(b.let(idx("AR", et, [lit("I", k)]), value_for(et, k + 1)))
+                if form == "other":
+                    sub_ = [idx("IX", "I", [lit("I", 1)])]
+                    tgt = idx("AR", et, sub_)
+                elif form == "same":
+                    if et != "I":
+                        continue
+                    tgt = idx("AR", et, [idx("AR", et, [lit("I", 1)])])
+                elif form == "deep":
+                    tgt = idx("AR", et, [idx("IX", "I", [idx("IX", "I", [lit("I", 2)])])])
+                elif form == "twodim":
+                    tgt = idx("G", et, [idx("IX", "I", [lit("I", 2)]), idx("IX", "I", [lit("I", 1)])])
+                else:
+                    tgt = idx("G", et, [idx("IX", "I", [lit("I", 3)]), bin_("+", idx("IX", "I", [lit("I", 2)]), lit("I", 1))])
+                if rw == "write":
+                    main.append(b.let(tgt, value_for(et, 77)))
+                else:
+                    main.append(b.print(lit("$", "r"), tgt))
+                for k in range(5):
+                    main.append(b.print(idx("AR", et, [lit("I", k)]), lit("$", "|")))
+                for k in range(4):
+                    main.append(b.print(idx("IX", "I", [lit("I", k)])))
+                for r in range(3):
+                    main.append(b.print(*[idx("G", et, [lit("I", r), lit("I", c_)]) for c_ in range(4)]))
+                out.append({"fam": "nested-subscript:%s/%s/%s" % (et, form, rw), "prog": prog(main)})
+    return out
+
+
+FAMILIES.append(fam_nested_subscript)
 
 
 def cases(tier, seed):
